@@ -613,9 +613,11 @@ def judge_floats_raw(res):
 
 def judge_floats(res):
     """judge_floats_raw; the only open finding left in this area is F39 (zero-height floats sent to the page origin),
-    attributed by its own clause; every other alarm keeps the plain clause signature.  A float whose final position
-    differs from the one float.py decided (re-aligned or moved with the text of its line after its placement: the
-    repaired findings F51, F186, F189) is an alarm of its own.
+    attributed by its own clause; every other alarm keeps the plain clause signature (the attributions of F210 - text
+    of an rtl line laid over a right float met in that line - and F211 - boxes of an rtl line displaced by the width of
+    the stripped trailing space - were removed when those findings were repaired in /repo).  A float whose final
+    position differs from the one float.py decided (re-aligned or moved with the text of its line after its placement:
+    the repaired findings F51, F186, F189) is an alarm of its own.
     Returns [(clause, id, detail, signature or None)]."""
     raw = judge_floats_raw(res)
     if raw and raw[0][0] == 'single-page':
@@ -626,18 +628,6 @@ def judge_floats(res):
         sig = None
         if c == 'zero-height-float':
             sig = 'zero-height-float-placed-at-page-origin'                      # F39
-        elif c == 'line-overlaps-float':
-            line, f = byidx[key[1]], byidx[key[2]]
-            if f['parent'] == line['idx'] and line.get('float_after_content') and line['dir'] == 'rtl' and f['side'] == 'right':
-                # rtl counterpart of the repaired F50: the text of an rtl line is not moved to the left of a right
-                # float met in the middle of that line
-                sig = 'inline-float-rtl-text-not-shifted'
-            elif line.get('ws_shift') and not rect_overlap(line['cx'] - line['ws_shift'], line['y'], line['cw'], line['mh'],
-                                                           f['x'], f['y'], f['mw'], f['mh']):
-                # remove_last_whitespace moved the children of this rtl line by the width of the stripped space as if
-                # the space were at the left end of the text, but the text is left-to-right script (the space was at
-                # its right end): the overlap is exactly that displacement
-                sig = 'rtl-line-ltr-text-shifted-by-stripped-space'
         out.append((c, e, d, sig))
     for r in res['recs']:
         if r['kind'] == 'float' and r.get('placed') and byidx.get(r['parent'], {}).get('kind') == 'line' and r['bh'] >= EPS:
@@ -1307,7 +1297,7 @@ MONITORS = {
 
 def check_corpus(S):
     """minimised cases replayed first: the witness of the open finding F39 (its alarm carries the finding's
-    signature) and the witnesses of the repaired findings F50, F51, F52 as regression cases (no attribution)."""
+    signature) and the witnesses of the repaired findings F50, F51, F52, F210, F211 as regression cases (no attribution)."""
     d = os.path.join(common.VERIF, 'corpus', 'C11')
     files = sorted(f for f in os.listdir(d) if f.endswith('.json')) if os.path.isdir(d) else []
     for f in files:
